@@ -105,6 +105,13 @@ let () =
                     if not (insert_tie b.pd p.pd (n_of_int ins) (n_of_int root) !dms dm_new (Stdlib.Hashtbl.find h2 "same" = "1") (res = "-"))
                     then ins_bad := (!ins_calls, b.raw_objs.(ins)) :: !ins_bad
                 | None -> ()); p10 := None
+       | 20 -> (* light trace: a normal object handed to the core at the root *)
+               let o = Stdlib.List.nth p.pd.t_objs 0 in
+               (if !lcpu_view <> None then lcpu_obs := lobs_of o :: !lcpu_obs);
+               (if !synth_desc <> None then synth_obs := obs_of o :: !synth_obs)
+       | 22 -> (* light trace: a memory object handed to the core *)
+               let o = Stdlib.List.nth p.pd.t_objs 0 in
+               (if !synth_desc <> None then synth_obs := obs_of o :: !synth_obs)
        | 12 -> p12 := Some p; in_find_parent := true;
                (if !synth_desc <> None then
                   let h = kv_tbl (split_on ' ' p.raw_head) in
